@@ -41,7 +41,7 @@ theorem GoodA.nonempty {c : Ctx} {root temps} (g : GoodA c) (h : CInv c root tem
     marking an empty arena. -/
 theorem collectLoop_goodA {root ru stop fault} (fuel : Nat) :
     ∀ (c : Ctx) (hs : Bool) (k : Nat) (c' : Ctx) (ex : Exit), CInv c root [] →
-      (c.phase = .sleep → ru = .payDebt ∧ c.metrics.hasDebt = true) →
+      (c.phase = .sleep → c.metrics.hasDebt = true) →
       (c.phase = .mark → c.metrics.totalGcs ≠ 0) → (Parked c → ¬ stop ≤ Stop.atSweep) →
       Ctx.collectLoop root ru stop fault fuel c hs k = (c', ex) →
       ∃ new, c'.steps = new ++ c.steps ∧ ('Z' ∉ new → ex ≠ .outOfFuel → GoodA c') := by
@@ -63,7 +63,7 @@ theorem collectLoop_goodA {root ru stop fault} (fuel : Nat) :
       exact ⟨chs, e1, fun _ _ => g⟩
     -- recursive call from `c1`
     have recur : ∀ (c1 : Ctx) (chs : List Char) (hs1 : Bool) (k1 : Nat), c1.steps = chs ++ c.steps →
-        CInv c1 root [] → (c1.phase = .sleep → ru = .payDebt ∧ c1.metrics.hasDebt = true) →
+        CInv c1 root [] → (c1.phase = .sleep → c1.metrics.hasDebt = true) →
         (c1.phase = .mark → c1.metrics.totalGcs ≠ 0) → (Parked c1 → ¬ stop ≤ Stop.atSweep) →
         Ctx.collectLoop root ru stop fault fuel c1 hs1 k1 = (c', ex) →
         ∃ new, c'.steps = new ++ c.steps ∧ ('Z' ∉ new → ex ≠ .outOfFuel → GoodA c') := by
@@ -76,7 +76,7 @@ theorem collectLoop_goodA {root ru stop fault} (fuel : Nat) :
     | drop => exact absurd hp hinv.notDrop
     | sleep =>
       simp only [hp] at h
-      obtain ⟨hru, hd⟩ := hsl hp
+      have hd := hsl hp
       have hb : (c.switch .mark).debtBreak ru = false := by
         have : (c.switch .mark).metrics.hasDebt = true := hd
         simp [Ctx.debtBreak, this]
@@ -176,9 +176,10 @@ theorem collectLoop_goodA {root ru stop fault} (fuel : Nat) :
           · exact recur _ [ch] _ _ est hsp.1 (fun hq => by rw [hsp.2] at hq; cases hq)
               (fun hq => by rw [hsp.2] at hq; cases hq) (fun _ => hst) h
 
-/-- A whole self-driven call: from an awake good state — or asleep, debt-driven, in debt. -/
+/-- A whole self-driven call: from an awake good state — or asleep in debt (whatever the method:
+    a debt-driven one wakes because of the debt, `finish_marking` / `finish_cycle` anyway). -/
 theorem doCollection_goodA {c c' : Ctx} {root ru stop fault ex} (hinv : CInv c root [])
-    (h0 : GoodA c ∨ (c.phase = .sleep ∧ ru = .payDebt ∧ c.metrics.hasDebt = true))
+    (h0 : GoodA c ∨ (c.phase = .sleep ∧ c.metrics.hasDebt = true))
     (hr : c.doCollection root ru stop fault = (c', ex)) :
     ∃ new, c'.steps = new ++ c.steps ∧ ('Z' ∉ new → GoodA c') := by
   have hfuel : ex ≠ .outOfFuel := by
@@ -188,20 +189,20 @@ theorem doCollection_goodA {c c' : Ctx} {root ru stop fault ex} (hinv : CInv c r
   · rename_i hb
     simp only [Prod.mk.injEq] at hr
     rw [← hr.1]
-    rcases h0 with g | ⟨_, _, hd⟩
+    rcases h0 with g | ⟨_, hd⟩
     · exact ⟨[], rfl, fun _ => g⟩
     · simp [hd] at hb
   · obtain ⟨new, e, f⟩ := collectLoop_goodA _ c false 0 c' ex hinv
       (fun hs => by
-        rcases h0 with g | ⟨_, h2, h3⟩
+        rcases h0 with g | ⟨_, h3⟩
         · exact absurd hs g.awake
-        · exact ⟨h2, h3⟩)
+        · exact h3)
       (fun hm => by
-        rcases h0 with g | ⟨h1, _, _⟩
+        rcases h0 with g | ⟨h1, _⟩
         · exact g.markNE hm
         · rw [h1] at hm; cases hm)
       (fun hq => by
-        rcases h0 with g | ⟨h1, _, _⟩
+        rcases h0 with g | ⟨h1, _⟩
         · exact absurd hq g.notParked
         · rw [Parked, h1] at hq; cases hq.1) hr
     exact ⟨new, e, fun hn => f hn hfuel⟩
@@ -469,16 +470,14 @@ theorem marked?_goodA {a : Arena} (h : Inv a) (g : GoodA a.ctx) (hcb : a.cb = no
         · cases hss
   · exact rf
 
-/-- A self-driven collection operation, executed awake in a good state — or asleep in debt, when
-    it is debt-driven. -/
+/-- A self-driven collection operation, executed awake in a good state — or asleep in debt,
+    outside callbacks. -/
 theorem collect_goodA {a : Arena} (h : Inv a) (m : Method) (k : Cont) (fault : TraceFault)
-    (h0 : GoodA a.ctx ∨ (a.cb = none ∧ a.ctx.phase = .sleep ∧ (Arena.methodArgs m).1 = .payDebt ∧
-      a.ctx.metrics.hasDebt = true)) :
+    (h0 : GoodA a.ctx ∨ (a.cb = none ∧ a.ctx.phase = .sleep ∧ a.ctx.metrics.hasDebt = true)) :
     ∃ new, (a.step (.collect m k fault none)).1.ctx.steps = new ++ a.ctx.steps ∧
       ('Z' ∉ new → GoodA (a.step (.collect m k fault none)).1.ctx) := by
   have key : ∀ (b : Arena) (fin : Bool), Inv b → b.marked = false →
-      (GoodA b.ctx ∨ (b.cb = none ∧ b.ctx.phase = .sleep ∧ (Arena.methodArgs m).1 = .payDebt ∧
-        b.ctx.metrics.hasDebt = true)) →
+      (GoodA b.ctx ∨ (b.cb = none ∧ b.ctx.phase = .sleep ∧ b.ctx.metrics.hasDebt = true)) →
       ∃ new, (b.stepBody fin (.collect m k fault none)).1.ctx.steps = new ++ b.ctx.steps ∧
         ('Z' ∉ new → GoodA (b.stepBody fin (.collect m k fault none)).1.ctx) := by
     intro b fin hb hbm hb0
@@ -487,7 +486,7 @@ theorem collect_goodA {a : Arena} (h : Inv a) (m : Method) (k : Cont) (fault : T
     · -- inside a callback the call is rejected: nothing happens
       rename_i hsome
       refine ⟨[], rfl, fun _ => ?_⟩
-      rcases hb0 with g | ⟨hn, _, _, _⟩
+      rcases hb0 with g | ⟨hn, _, _⟩
       · exact g
       · rw [hn] at hsome; simp at hsome
     · rename_i hcb0
@@ -582,12 +581,12 @@ theorem run_goodA (ops : List Op) : ∀ (a : Arena), Inv a → GoodA a.ctx →
         fun hn => f2 (fun hm => hn (List.mem_append_left _ hm))⟩
 
 /-- **Inside one cycle, self-driven calls never leave an empty arena awake.**  `a0`: asleep with
-    positive debt, outside callbacks; a self-driven debt-driven call wakes it; `post`: mutator
+    positive debt, outside callbacks; a self-driven collection call (of any method) wakes it; `post`: mutator
     operations and self-driven collection calls only; no `'Z'` appended.  Then a final
     `cycle_debt` that returns with the cycle unfinished returns with a non-empty arena. -/
 theorem selfdriven_nonempty {a0 : Arena} (h0 : Inv a0) (hacc0 : Acc a0.ctx) (hcb0 : a0.cb = none)
     (hs : a0.ctx.phase = .sleep) (hd : 0 < a0.ctx.metrics.allocationDebt)
-    (m : Method) (hm : (Arena.methodArgs m).1 = .payDebt) (k : Cont) (wfault : TraceFault)
+    (m : Method) (k : Cont) (wfault : TraceFault)
     (post : List Op) (hpost : ∀ op, op ∈ post → op.selfDriven = true ∧ op.keepsCycle = true)
     (hal : (a0.run (.collect m k wfault none :: post)).alive = true)
     (hcb : (a0.run (.collect m k wfault none :: post)).cb = none)
@@ -611,7 +610,7 @@ theorem selfdriven_nonempty {a0 : Arena} (h0 : Inv a0) (hacc0 : Acc a0.ctx) (hcb
       | true => rfl
       | false => rw [run_dead hx] at hal; rw [hx] at hal; cases hal
     have h1 := inv_step h0 _ hal1
-    obtain ⟨new1, e1, f1⟩ := collect_goodA h0 m k wfault (Or.inr ⟨hcb0, hs, hm, hhd⟩)
+    obtain ⟨new1, e1, f1⟩ := collect_goodA h0 m k wfault (Or.inr ⟨hcb0, hs, hhd⟩)
     by_cases hz1 : 'Z' ∈ new1
     · obtain ⟨new2, e2, _⟩ := run_cycRel post _ h1 (fun o ho => (hpost o ho).2) hal
       have : new2 ++ new1 = new :=
